@@ -131,7 +131,7 @@ func (enc *Encoder) WriteFloat64(f float64) {
 }
 
 func (enc *Encoder) writeComplex(r float64, i float64, bitSize int) {
-	if i == 0 && !math.Signbit(i) { // (an imaginary part of -0 is not +0: it is written)
+	if i == 0 {
 		enc.writeFloat(r, bitSize)
 	} else {
 		enc.AddReferenceCount(1)
